@@ -272,6 +272,15 @@ def explore(ns, res, r, nested, origin, rounds):
     text = refreader.render(nested)
     exprs = list(ns.nodeio.parse_smtlib(text))
     muts = mutator_instances(ns)
+    if r.random() < 0.4:
+        # symbols that look like ddSMT's own fresh variables and collide
+        # with the ids of nodes of this very input (as happens when ddSMT is
+        # run on its own output, where ids start at 1 again)
+        inner = [n for n in ns.nodes.dfs(exprs) if not n.is_leaf()]
+        decls = [ns.Node('declare-const', f'x{n.id}__fresh', 'Bool')
+                 for n in r.sample(inner, min(4, len(inner)))]
+        exprs = ns.smtlib.introduce_variables(exprs, decls)
+        res.count('inputs_with_colliding_fresh_names')
     for rnd in range(rounds + 1):
         nested_now = refmodel.to_nested_list(exprs)
         try:
